@@ -1,8 +1,10 @@
 (* c09 driver.  stdin: one case per line, four sections separated by '|':
      <cfg0> {K <url> <tid> <tident> | W <word> | V <url> <word>}*     initial world (disk, user dict, file dicts)
    | op ; op ; ...                                                    history
-   | k {A | <id>}*   or   f {A | <id>}*   or   b {A | <id>}*          schedule (k: client-interaction steps, f: instr steps,
-                                                                       b: batch case = k, run through its expansion to instr steps)
+   | k {A | <id>}*   or   f {A | <id>}*   or   b {A | <id>}*   or   q {A | <id>}*
+                                                                      schedule (k: client-interaction steps, f: instr steps,
+                                                                       b: batch case = k, run through its expansion to instr steps,
+                                                                       q: k where no two handlers overlap = a sequential history)
    | <url>*                                                           urls whose freshness is reported
    ops:  O url lang tid tident version | C url tid tident version | S url | X url | DF d n | DD d | AU w url | AF w url
          | I url k | R | G cfg url*          url: F<d>.<n> | U<n>          lang: p m c x
@@ -13,6 +15,11 @@
    history is outside the class of C09_batch_closed_exact / C09_batch_open_exact for that url; `-` when the
    schedule does not end quiescent.  The `b` run is the instruction-level dispatcher `run` on `kexpand` of the
    schedule; it must end in the same system as `krun` (else `? kexpand`).
+   for a `q` schedule the world is that of the BIG-STEP specification Model/C09Seq.v (`sfold`, no instrs); it must be the
+   world `krun` and `run_seq` end in (else `? sstep`); a fourth section follows: per url that is open on the client and
+   has an entry, the components of `lag_of` that lag - `url:` followed by t (text), d (dictionary files), c (parser
+   settings; not for plain text, see pcfg below); along the history the driver re-checks C09_seq_step_exact /
+   C09_seq_exceptions_exact on the executable definitions (`? lag_after` / `? exception` when they fail).
    a publication is  url=E  or  url=t<tid>.<ident>,<lang>,U<words>,F<words>,i<ident>,L<lcfg>,P<pcfg>,S<scfg>,G<ignored>
    U, F, i are what shows of the two dictionaries of the provenance (the linter's and the one the document
    was parsed with): a word is accepted iff it is in both (Server.observe).
@@ -84,6 +91,21 @@ let () =
           let res, tr = match tokens sched with
             | "k" :: cs -> model_krun w0 h (ks cs), None
             | "f" :: cs -> model_run w0 h (List.map (fun c -> if c = "A" then CAdmit else CRun (nat_s c)) cs), None
+            | "q" :: cs ->
+                let big = model_seq w0 h in
+                (* the executable statements of the step theorems, along the history *)
+                let us = List.map url_of (tokens urls) in
+                let _ = List.fold_left (fun (w, ok) o ->
+                    let w' = sstep o w in
+                    let ok' = ok && proto_okb w o in
+                    if ok' then List.iter (fun u ->
+                        if lagb w' u <> lag_after o w u then failwith "lag_after";
+                        if not (lagb w u) && lagb w' u <> exception0 o w u then failwith "exception") us;
+                    (w', ok')) (w0, true) h in
+                (match model_krun w0 h (ks cs), run_seq h w0 with
+                 | Some y, Some w -> if y.y_world = big && w = big && quiescentb y then Some y, None else failwith "sstep"
+                 | None, _ -> None, None
+                 | _ -> failwith "sstep")
             | "b" :: cs ->
                 (match batch_krun w0 h (ks cs), model_krun w0 h (ks cs) with
                  | Some (y, tr), Some y' -> if y = y' then Some y, Some tr else failwith "kexpand"
@@ -112,6 +134,21 @@ let () =
               let base = String.trim (String.concat " " (List.map (fun (u, p) -> u ^ "=" ^ p) log)
                              ^ " # " ^ (if quiescentb y then "q" else "n")
                              ^ " # " ^ String.concat " " (List.map url_s stale)) in
-              print_endline (match shape with None -> base | Some sh -> String.trim (base ^ " # " ^ sh))
+              let lagsec = match tokens sched with
+                | "q" :: _ ->
+                    Some (String.concat " " (List.filter_map (fun u ->
+                      match lookup u w.s_docs, lookup u w.w_open with
+                      | Some e, Some cd ->
+                          let t = (match e.e_text with Some t -> not (text_eqb t cd.cd_text) | None -> true) in
+                          let d = not (dictv_eqb e.e_base (sq_dict w u)) in
+                          let c = cd.cd_lang <> LPlain && e.e_pcfg <> w.w_ccfg in
+                          if (t || d || e.e_pcfg <> w.w_ccfg) <> lagb w u then failwith "lagb";
+                          if t || d || c then Some (url_s u ^ ":" ^ (if t then "t" else "") ^ (if d then "d" else "") ^ (if c then "c" else "")) else None
+                      | _ -> None) us))
+                | _ -> None in
+              print_endline (match shape, lagsec with
+                | Some sh, _ -> String.trim (base ^ " # " ^ sh)
+                | None, Some lg -> String.trim (base ^ " # " ^ lg)
+                | None, None -> base)
         with Failure m -> print_endline ("? " ^ m) | Invalid_argument m -> print_endline ("? " ^ m))
     | _ -> print_endline "?")
